@@ -71,6 +71,7 @@ def run(idx: Index, rep: Report, tier: str):
     check_metadata_readers(idx, rep)
     check_width_propagation(idx, rep)
     check_class_invariant(idx, rep, tier)
+    check_reindex_validation(idx, rep)
     rep.stats.update({"alias_" + k: v for k, v in an.stats.items()})
 
 
@@ -1308,3 +1309,57 @@ def check_class_invariant(idx: Index, rep: Report, tier: str):
                        reason="; ".join(uniq[:3]))
     if not rep.has_unlisted_violations():
         rep.floor("class-invariant histories folded", n, 60)
+
+
+def check_reindex_validation(idx: Index, rep: Report):
+    """reindex_qubits writes the caller's labels into the gates of the circuit: labels that Gate itself would reject (negative, not an integer, the same label
+    for two qubits) must be refused here too, and a refused call must leave the circuit as it was.  Folded with the repository's Circuit and Gate classes."""
+    import math
+    from ..consteval import FuncVal, Raised, Undecidable
+    from ..rules import circuitsem as cs
+    rule = "K6.gate-validation"
+    Circ = cs.module_resolver(idx, CIRCUIT)("Circuit")
+    GateCls = cs.module_resolver(idx, GATE)("Gate")
+    if Circ is None or GateCls is None:
+        raise AnalysisError("Circuit / Gate classes not resolvable")
+    f = idx.function(f"{CIRCUIT}::Circuit.reindex_qubits")
+
+    def folder():
+        fo = cs.make_folder(idx, CIRCUIT, ctors={"Gate": None})
+        fo.env["np.pi"] = math.pi
+        fo.env["pi"] = math.pi
+        return fo
+
+    def G(name, target, control=None):
+        fo = cs.make_folder(idx, GATE, ctors={"Gate": None})
+        fo.env["pi"] = math.pi
+        return fo.instantiate(GateCls, [name, target], {"control": control, "parameter": "", "is_variational": False})
+
+    def sig(c):
+        return [(g.fields["name"], tuple(g.fields["target"]), tuple(g.fields["control"] or ())) for g in c.fields["_gates"]], sorted(c.fields["_qubit_indices"], key=repr)
+    cases = [("the same label twice", [0, 0, 1]), ("a negative label", [0, -1, 2]), ("a fractional label", [0, 2.5, 1]), ("a string label", [0, "1", 2]), ("too few labels", [0, 1]),
+             ("a valid permutation", [2, 0, 1]), ("valid labels with a gap", [4, 0, 7])]
+    n = 0
+    for nq in (None, 3):
+        for label, new in cases:
+            c = folder().instantiate(Circ, [[G("H", 0), G("CNOT", 1, 0), G("X", 2)]], {"n_qubits": nq})
+            before = sig(c)
+            cv = c.cls_val
+            try:
+                folder().call_funcval(FuncVal(cv.methods["reindex_qubits"], bound_self=c, home=cv.method_home.get("reindex_qubits", cv.home)), [list(new)], {})
+                refused = False
+            except Raised:
+                refused = True
+            except Undecidable as e:
+                raise AnalysisError(f"reindex_qubits not foldable for {new}: {e}")
+            valid = label.startswith("valid") or label.startswith("a valid")
+            n += 1
+            if valid:
+                want = [("H", (new[0],), ()), ("CNOT", (new[1],), (new[0],)), ("X", (new[2],), ())]
+                rep.decide(not refused and sig(c)[0] == want, rule, f, f.node, text=f"reindex_qubits({new}){' on a fixed 3-qubit register' if nq else ''}: {label}",
+                           what="distinct non-negative integer labels are applied, qubit k of the circuit getting the k-th label", reason="refused" if refused else f"gates become {sig(c)[0]}")
+            else:
+                rep.decide(refused and sig(c) == before, rule, f, f.node, text=f"reindex_qubits({new}){' on a fixed 3-qubit register' if nq else ''}: {label}",
+                           what="labels that a gate may not carry (negative, not an integer, shared by two qubits) are refused and the circuit is left as it was",
+                           reason="accepted: the circuit now holds " + str(sig(c)[0]) if not refused else "refused, but the circuit was modified before the refusal")
+    rep.floor("reindex_qubits label lists folded", n, 14)
